@@ -15,7 +15,8 @@ Styles == {"block", "line", "jsdoc", "jsdoc_multiline"}
 Groups == {"/** @jsxRuntime classic */ /** @jsx h */", "/**\n * @jsxImportSource vue\n * @jsxFrag F\n * @jsx h\n */",
            "// @jsxFrag F\n// @jsx h", "/* @jsx */ /* @jsx h */", "/* @jsxRuntime automatic */\n/* unrelated */\n/* @jsx h */",
            "/** @jsx h */ /** @jsxRuntime classic */", "/* unrelated */ // @jsx h"}
-Places == {"head", "before_second", "before_export_default", "inside_function", "trailing", "inside_expression"}
+Places == {"head", "before_second", "before_export_default", "inside_function", "trailing", "inside_expression",
+           "same_line_before_second", "same_line_trailing"}
 
 Comment(style, text) ==
   CASE style = "block" -> "/* " \o text \o " */"
@@ -36,14 +37,18 @@ ModuleFor(place, cm) ==
     [] place = "before_export_default" -> <<Item("s1", "module", E1), Item("s2", "arrow_expr", E2), Cm(cm), Item("s3", "fn", E3)>>
     [] place = "inside_function" -> <<Item("s1", "module", E1), [k |-> "raw", text |-> "export function s3() {\n  " \o cm \o "\n  return <><b/></>;\n}",
                                                                 exports |-> <<[name |-> "s3", kind |-> "thunk"]>>]>>
+    \* on the line of the previous statement, yet before the next one / after the last one
+    [] place = "same_line_before_second" -> <<Item("s1", "module", E1), [k |-> "sameline", text |-> cm], Item("s2", "module", E2), Item("s3", "fn", E3)>>
+    [] place = "same_line_trailing" -> <<Item("s1", "module", E1), Item("s2", "module", E2), [k |-> "sameline", text |-> cm]>>
     [] place = "trailing"      -> <<Item("s1", "module", E1), Item("s2", "module", E2), Cm(cm)>>
     [] place = "inside_expression" -> <<[k |-> "raw", text |-> "export const s1 = [ " \o cm \o "\n <div id=\"a\"><b /></div> ][0];",
                                          exports |-> <<[name |-> "s1", kind |-> "value"]>>], Item("s2", "module", E2)>>
 
-Effective(place) == place \in {"head", "before_second", "before_export_default"}
+Effective(place) == place \in {"head", "before_second", "before_export_default", "same_line_before_second"}
 
-Raw == {[place |-> p, style |-> s, text |-> t, optPragma |-> op] :
-          p \in Places, s \in Styles, t \in Texts, op \in {"", "hh"}}
+Raw == {r \in {[place |-> p, style |-> s, text |-> t, optPragma |-> op] :
+                   p \in Places, s \in Styles, t \in Texts, op \in {"", "hh"}} :
+          r.place \in {"same_line_before_second", "same_line_trailing"} => r.style \in {"block", "jsdoc"}}
 
 GroupCases ==
   {[case |-> "C15-g", prop |-> "C15", opts |-> [DefaultOpts EXCEPT !.pragma = op], place |-> p, style |-> "group", text |-> g,
